@@ -2,7 +2,7 @@
 entry-wise set/map construction, CS delegation.  Rules on the library's container impls."""
 from analysis import View, strip_refs, erase_generics, term_mentions
 from sites import BodySites, npath
-from loc import canon, item_of, next_kind, fmt, loop_of
+from loc import canon, item_of, next_kind, fmt, loop_of, call_name
 from lin import Finding
 
 
@@ -419,7 +419,7 @@ def c_tuple(view, bs):
         # field k = unwrap(local assigned Some(Ok payload of child k))
         fk = canon(view, term[2][k])
         okk = False
-        if fk[0] == "call" and fk[2].endswith("Option::unwrap") and fk[3]:
+        if fk[0] == "call" and call_name(view, fk) == "std::option::Option::unwrap" and fk[3]:
             src = fk[3][0]
             if src[0] == "multi":
                 for d in view.whole_defs(src[1]):
